@@ -25,6 +25,7 @@ import (
 //	C15.route <pdesc> <keys> <->                  ||  <ActivePartitionForKey per key> <GetKeysByPartition>
 //	C15.hist  <initial pdesc> <lifecyclers> <ops> ||  <res@pdesc after every op, joined by #>
 //	C15.cas   <initial pdesc> <lifecyclers> <conflicting write;handler> ||  as C15.hist (the handler's CAS function was re-run after the conflict)
+//	C15.sub   <initial pdesc> <lifecyclers> <E...@t0:t1@t0ms;R,ci,sec@t0:t1@nowms;...> ||  as C15.hist; clocks with a sub-second part (ms)
 //	C15.loop  <initial pdesc> <lifecycler,create,remove> <script> || <res@pdesc after every action + one full tick>
 //	C15.repl  <pdesc> <instances> <healthy-states,timeout> || <replication sets | err>
 //	C15.mrepl <pdesc> <instances> <healthy-states,partition> || <instances in order;maxUnavailableZones | err>
@@ -847,6 +848,122 @@ func c15CasConflict(e *env, r *rng) {
 	e.emit("C15.cas", encPDescOpt(c15Rebase(init, base), true), lcStr(a)+";"+lcStr(b), strings.Join(ops, ";"), strings.Join(obs, "#"))
 }
 
+// c15SubSecond: deletion of an inactive partition with the reconcile clock at NON-whole-second instants. The state
+// change to INACTIVE is performed for real (editor.ChangePartitionState) at a wall-clock instant with a sub-second
+// part; its start t0 is recorded in MILLISECONDS. Then another lifecycler's reconcileOtherPartitions runs under
+// virtual clocks (ms precision) around the boundary: exactly t0+delay, inside (stored second + delay, t0 + delay],
+// the whole seconds stored+delay / stored+delay+1 and +-1 ms / +500 ms / +999 ms around them. The stored state timestamp is
+// the change truncated to the second, so only `stored second < floor(now - delay)` proves "inactive LONGER than the delay".
+// Line = a C15.hist history whose E and R steps carry a third "@" part: E: t0 in ms, R: the reconcile clock in ms
+// (both relative to base*1000; the R op's `now` field is floor(ms/1000), what `since.Unix()` compares with).
+func c15SubSecond(e *env, r *rng) {
+	logger := log.NewNopLogger()
+	inner, closer := consul.NewInMemoryClient(ring.GetPartitionRingCodec(), logger, nil)
+	defer closer.Close()
+	ctx := context.Background()
+	const key = "pring"
+	// stay away from the second's edges so that the call's start and its time.Now() fall into one second
+	if ms := time.Now().UnixMilli() % 1000; ms < 80 || ms > 900 {
+		time.Sleep(time.Duration((1080-ms)%1000+20) * time.Millisecond)
+	}
+	base := time.Now().Unix() - 10
+	multi := r.chance(1, 2)
+	own, target := int32(2), int32(r.intn(2))
+	delay := pick(r, []int{1, 2, 5, 5})
+	withOwner := r.chance(1, 6) // control: the partition keeps an owner and must stay
+	oid := func(inst string, pid int32) string {
+		if multi {
+			return inst + "/" + itoa(int(pid))
+		}
+		return inst
+	}
+	init := ring.NewPartitionRingDesc()
+	init.Partitions[own] = ring.PartitionDesc{Id: own, State: ring.PartitionActive, StateTimestamp: base - 1000, Tokens: []uint32{2001, 2002}}
+	init.Owners[oid("ing-a-0", own)] = ring.OwnerDesc{OwnedPartition: own, State: ring.OwnerActive, UpdatedTimestamp: base - 1000}
+	init.Partitions[target] = ring.PartitionDesc{Id: target, State: ring.PartitionActive, StateTimestamp: base - 1000, Tokens: []uint32{uint32(target)*1000 + 1}}
+	if withOwner {
+		init.Owners[oid("ing-c-0", target)] = ring.OwnerDesc{OwnedPartition: target, State: ring.OwnerActive, UpdatedTimestamp: base - 1000}
+	}
+	initClone := c15Rebase(init, 0)
+	if err := inner.CAS(ctx, key, func(interface{}) (interface{}, bool, error) { return initClone, true, nil }); err != nil {
+		panic(err)
+	}
+	mk := func(pid int32, inst string) *c15LC {
+		c := &c15LC{pid: pid, instance: inst, multi: multi, waitCount: 1, waitDur: 5, deleteAfter: delay}
+		c.l = ring.NewPartitionInstanceLifecycler(ring.PartitionInstanceLifecyclerConfig{
+			PartitionID: c.pid, InstanceID: c.instance, MultiPartitionOwnership: c.multi,
+			WaitOwnersCountOnPending: c.waitCount, WaitOwnersDurationOnPending: time.Duration(c.waitDur) * time.Second,
+			DeleteInactivePartitionAfterDuration: time.Duration(c.deleteAfter) * time.Second, PollingInterval: time.Hour,
+		}, "verif", key, inner, logger, nil)
+		return c
+	}
+	a := mk(own, "ing-a-0")
+	b := mk(target, "ing-c-0")
+	editor := ring.NewPartitionRingEditor(key, inner)
+	get := func() *ring.PartitionRingDesc {
+		v, err := inner.Get(ctx, key)
+		if err != nil {
+			panic(err)
+		}
+		return ring.GetOrCreatePartitionRingDesc(v)
+	}
+	lcStr := func(c *c15LC) string {
+		m := "0"
+		if c.multi {
+			m = "1"
+		}
+		return strings.Join([]string{itoa(int(c.pid)), c.instance, m, itoa(c.waitCount), itoa(c.waitDur), itoa(c.deleteAfter)}, ",")
+	}
+	var ops, obs []string
+	t0 := time.Now()
+	err := editor.ChangePartitionState(ctx, target, ring.PartitionInactive)
+	t1 := time.Now()
+	cur := get()
+	stored := cur.Partitions[target].StateTimestamp // whole seconds
+	t0ms := t0.UnixMilli() - base*1000
+	ops = append(ops, fmt.Sprintf("E,%d,%d,%d@%d:%d@%d", target, int(ring.PartitionInactive), stored-base, t0.Unix()-base, t1.Unix()-base, t0ms))
+	obs = append(obs, c15Err(err)+"@"+encPDescOpt(c15Rebase(cur, base), true))
+	d := int64(delay) * 1000
+	sb := (stored - base) * 1000 // the stored second, in ms
+	frac := t0ms - sb
+	if frac < 1 {
+		frac = 1
+	}
+	cands := []int64{
+		t0ms + d,                       // exactly `delay` after the call began: not yet LONGER than the delay
+		t0ms + d - int64(r.intn(int(frac))), // inside (stored second + delay, t0 + delay]
+		sb + d + 1, sb + d + 500, sb + d + 999, // the boundary second with a sub-second part
+		sb + d, sb + d - 1, sb + d - 1000 + 999, // at / just below the boundary second
+		sb + d + 1000, sb + d + 1000 + int64(r.intn(1000)), sb + d + 2000 + int64(r.intn(1000)), // long enough whatever the sub-second part was
+	}
+	n := 2 + r.intn(3)
+	var nows []int64
+	for i := 0; i < n; i++ {
+		if i == n-1 && r.chance(1, 2) {
+			nows = append(nows, cands[8+r.intn(3)])
+		} else {
+			nows = append(nows, cands[r.intn(8)])
+		}
+	}
+	sort.Slice(nows, func(i, j int) bool { return nows[i] < nows[j] })
+	for _, now := range nows {
+		before := testutil.ToFloat64(a.l.VerifReconcilesFailedTotal().WithLabelValues("other-partitions"))
+		c0 := time.Now().Unix()
+		a.l.VerifReconcileOtherPartitions(ctx, time.UnixMilli(base*1000+now))
+		res := "ok"
+		if testutil.ToFloat64(a.l.VerifReconcilesFailedTotal().WithLabelValues("other-partitions")) != before {
+			res = "failed"
+		}
+		sec := now / 1000
+		if now < 0 && now%1000 != 0 {
+			sec--
+		}
+		ops = append(ops, fmt.Sprintf("R,0,%d@%d:%d@%d", sec, c0-base, time.Now().Unix()-base, now))
+		obs = append(obs, res+"@"+encPDescOpt(c15Rebase(get(), base), true))
+	}
+	e.emit("C15.sub", encPDescOpt(c15Rebase(init, base), true), lcStr(a)+";"+lcStr(b), strings.Join(ops, ";"), strings.Join(obs, "#"))
+}
+
 // c15Loop drives the REAL service of one lifecycler (StartAndAwaitRunning: starting + the select loop of `running`
 // with a 3 ms ticker; ChangePartitionState through the actor channel; StopAndAwaitTerminated: ctx.Done + stopping)
 // next to editor calls, on an in-memory KV. After every external action it waits until one complete reconcile
@@ -1272,5 +1389,9 @@ func runC15(e *env) {
 	r = newRng(e.seed, 1505)
 	for i := 0; i < 100*e.scale; i++ {
 		c15PollRace(e, r)
+	}
+	r = newRng(e.seed, 1506)
+	for i := 0; i < 150*e.scale; i++ {
+		c15SubSecond(e, r)
 	}
 }
